@@ -1320,6 +1320,8 @@ FormatterToXML::charactersRaw(
     m_ispreserve = true;
 
     accumContent(chars, 0, length);
+
+    m_isprevtext = true;
 }
 
 
